@@ -70,6 +70,107 @@ def putsText (msg : Bytes) (max : Nat) : Bytes × Bool :=
 /-- level clamp of LogPrintfFunc -/
 def clampLevel (l : Int) : Nat := if l < 0 then 0 else if l ≥ 8 then 7 else l.toNat
 
+/-! ### (a') the same loop with the C++ widths: `uint32_t buff_size`, `size_t len`, `int` result of
+`vsnprintf`, `uint32_t text_len`
+
+`vsnprintf` returns an `int`: the formatted length `L` when `L ≤ INT_MAX`, a NEGATIVE value when
+formatting fails (`fail`: encoding error of `%lc`/`%ls`) or the result would be longer than
+`INT_MAX` (EOVERFLOW).  The code as found assigns it to a `size_t`: −1 becomes `SIZE_MAX`. -/
+
+def sizeMax : Nat := 2 ^ 64 - 1
+def intMax : Nat := 2147483647
+def u32 (n : Nat) : Nat := n % 2 ^ 32
+def usize (n : Nat) : Nat := n % 2 ^ 64
+
+/-- does `vsnprintf` return a negative value -/
+def vsnFails (L : Nat) (fail : Bool) : Bool := fail || decide (L > intMax)
+
+structure FmtStW where
+  buffSize : Nat        -- value of the `uint32_t`
+  trunc : Bool
+  deriving Repr, DecidableEq
+
+inductive FmtResW where
+  /-- `Dispatch` with `text_len`, `text_trunc`; `formatted` = how many leading bytes of the buffer
+  hold formatted text (0 after a failed `vsnprintf`: the contents are unspecified) -/
+  | done (textLen : Nat) (trunc : Bool) (formatted : Nat)
+  | again (s : FmtStW)
+  /-- after patches/C09-07: formatting failed, the format string itself is logged (the `LogPuts` path) -/
+  | fallback
+  deriving Repr, DecidableEq
+
+/-- one round, the code AS FOUND -/
+def fmtRoundWAsFound (L : Nat) (fail : Bool) (max : Nat) (s : FmtStW) : FmtResW :=
+  let neg := vsnFails L fail
+  let r := if neg then sizeMax else L
+  let len := if s.trunc then max else r
+  if len < s.buffSize then .done (u32 len) s.trunc (if neg then 0 else min L (s.buffSize - 1))
+  else if len ≤ max then .again { s with buffSize := u32 (usize (len + 1)) }
+  else .again { buffSize := u32 (usize (max + 1)), trunc := true }
+
+/-- one round after patches/C09-07: a negative result leaves the loop for the fallback -/
+def fmtRoundW (L : Nat) (fail : Bool) (max : Nat) (s : FmtStW) : FmtResW :=
+  if vsnFails L fail then .fallback else fmtRoundWAsFound L false max s
+
+def fmtLoopW (round : FmtStW → FmtResW) : Nat → FmtStW → Nat → Option (FmtResW × Nat)
+  | 0, _, _ => none
+  | fuel + 1, s, rounds =>
+    match round s with
+    | .again s' => fmtLoopW round fuel s' (rounds + 1)
+    | r => some (r, rounds + 1)
+
+def fmtInitW (max : Nat) : FmtStW := { buffSize := u32 (min stackLimit max + 1), trunc := false }
+
+/-- `LogPrintfFunc`, `with_args` path, with widths: `none` = the loop is still running after `fuel` rounds -/
+def formatW (L : Nat) (fail : Bool) (max : Nat) (fuel : Nat := 3) : Option (FmtResW × Nat) :=
+  fmtLoopW (fmtRoundW L fail max) fuel (fmtInitW max) 0
+
+def formatWAsFound (L : Nat) (fail : Bool) (max : Nat) (fuel : Nat := 3) : Option (FmtResW × Nat) :=
+  fmtLoopW (fmtRoundWAsFound L fail max) fuel (fmtInitW max) 0
+
+/-- the `LogPuts` path with widths: `content.text_len = strlen(fmt)` narrows to 32 bits BEFORE the
+comparison with the maximum: (text_len, truncated) -/
+def putsW (L : Nat) (max : Nat) : Nat × Bool :=
+  let tl := u32 L
+  if tl > max then (u32 max, true) else (tl, false)
+
+/-! ### (c') a sink callback that logs: the dispatch lock is a plain `std::mutex`
+
+`Dispatch()` calls every channel function while it holds `_lock`; a channel function that calls
+`LogPrintfFunc` itself runs into `CantDispatch()`, which locks `_lock` again — the calling
+thread blocks on a mutex it owns (formally undefined for `std::mutex`; glibc: blocks for ever).
+`RAct.call` is such a nested log call among the actions of a call. -/
+
+inductive RAct (α β : Type) where
+  | emit (a : α)
+  | call (c : β)
+
+structure RThread (α β : Type) where
+  todo : List β := []
+  cur : Option (List (RAct α β)) := none
+
+structure RSys (α β : Type) where
+  threads : Nat → RThread α β
+  holder : Option Nat := none
+  trace : List α := []
+
+def rsysStep {α β} (acts : β → List (RAct α β)) (s : RSys α β) (t : Nat) : RSys α β :=
+  let th := s.threads t
+  let setT (x : RThread α β) : Nat → RThread α β := fun i => if i = t then x else s.threads i
+  match th.cur with
+  | none =>
+    match th.todo with
+    | [] => s
+    | c :: rest =>
+      if s.holder.isSome then s            -- blocked on the mutex
+      else { s with threads := setT { todo := rest, cur := some (acts c) }, holder := some t }
+  | some [] => { s with threads := setT { th with cur := none }, holder := none }
+  | some (.emit a :: as) => { s with threads := setT { th with cur := some as }, trace := s.trace ++ [a] }
+  | some (.call _ :: _) => s               -- the holder itself blocks on `_lock`: no step, for ever
+
+def rsysRun {α β} (acts : β → List (RAct α β)) (s : RSys α β) (sched : List Nat) : RSys α β :=
+  sched.foldl (rsysStep acts) s
+
 /-! ## (b) Sink::filter — per-module level, else the default level -/
 
 structure FilterCfg where
@@ -346,6 +447,153 @@ def flushAsFound (max : Nat) (s : FileSt) (o : Option Nat) : FileSt :=
 
 def fileBatchAsFound (max : Nat) (s : FileSt) (b : List Bytes × Option Nat) : FileSt :=
   if b.1.isEmpty then s else flushAsFound max { s with cache := s.cache ++ b.1.flatten } b.2
+
+/-! ### (f'') the kernel's answers as an oracle — `write` / `open` / `close` on the log file
+
+Every system call `flush()` makes on the log file takes its result from the oracle:
+`write` may accept `k` of the `n` bytes asked, fail with EINTR (the loop retries) or fail hard
+(ENOSPC, EFBIG, EDQUOT, EIO, …; `write` returning 0 is treated the same way by the code);
+`MakeDirectory` / `open` may fail when a new file is due (EMFILE, ENOSPC, EACCES).  The result
+of `close` is ignored by the code (`CHECK_CLOSE_RESET_FD`), and so are `unlink`/`symlink` of the
+`latest.log` link: they have no influence on the state below.  An exhausted `writes` list means
+complete writes (the finite oracle is also what ends the EINTR retry loop). -/
+
+inductive WAns where
+  | acc (k : Nat)     -- `k` bytes accepted (clamped to what was asked; `k = 0`: write returned 0)
+  | eintr             -- −1 / EINTR: retried
+  | err               -- −1 / any other errno: the loop stops
+  deriving Repr, DecidableEq
+
+/-- the write loop of `flush()`: (bytes that reached the file, bytes left in the cache) -/
+def writeLoop : List WAns → Bytes → Bytes × Bytes
+  | [], data => (data, [])
+  | .acc k :: os, data =>
+    if data.isEmpty then ([], [])
+    else if k = 0 then ([], data)
+    else let r := writeLoop os (data.drop k); (data.take k ++ r.1, r.2)
+  | .eintr :: os, data => if data.isEmpty then ([], []) else writeLoop os data
+  | .err :: _, data => ([], data)
+
+structure FOracle where
+  dirOk : Bool := true          -- MakeDirectory succeeded (consulted only when no fd is open)
+  openOk : Bool := true         -- open(O_CREAT|O_WRONLY|O_APPEND) succeeded (same)
+  writes : List WAns := []
+  deriving Repr, DecidableEq
+
+/-- `AsyncFileSink::flush()` as coded (after patches/C09-04), every kernel answer from the oracle.
+* no fd open: `checkAndCreateLogFile()`; on failure `flush()` returns, the cache is kept whole;
+  on success a new empty file, counter zeroed;
+* write loop; what was accepted leaves the cache;
+* an unwritten tail: return — same file, fd stays open, NO rollover decision;
+* otherwise close the fd iff the counter reached the limit. -/
+def flushK (max : Nat) (s : FileSt) (o : FOracle) : FileSt :=
+  let start : Option (Bytes × Nat) :=
+    match s.cur with
+    | some d => some (d, s.total)
+    | none => if o.dirOk && o.openOk then some ([], 0) else none
+  match start with
+  | none => s
+  | some (d0, t0) =>
+    let r := writeLoop o.writes s.cache
+    let d := d0 ++ r.1
+    let total := t0 + r.1.length
+    if !r.2.isEmpty then { closed := s.closed, cur := some d, total := total, cache := r.2 }
+    else if total ≥ max then { closed := s.closed ++ [d], cur := none, total := total, cache := [] }
+    else { closed := s.closed, cur := some d, total := total, cache := [] }
+
+def fileBatchK (max : Nat) (s : FileSt) (b : List Bytes × FOracle) : FileSt :=
+  if b.1.isEmpty then s else flushK max { s with cache := s.cache ++ b.1.flatten } b.2
+
+def fileRunK (max : Nat) (s : FileSt) (bs : List (List Bytes × FOracle)) : FileSt :=
+  bs.foldl (fileBatchK max) s
+
+/-- the variant WITHOUT the early return on an unwritten tail (the rollover check runs in the
+middle of a batch) — kept for the counterexample theorem that shows why the return matters -/
+def flushKNoReturn (max : Nat) (s : FileSt) (o : FOracle) : FileSt :=
+  let start : Option (Bytes × Nat) :=
+    match s.cur with
+    | some d => some (d, s.total)
+    | none => if o.dirOk && o.openOk then some ([], 0) else none
+  match start with
+  | none => s
+  | some (d0, t0) =>
+    let r := writeLoop o.writes s.cache
+    let d := d0 ++ r.1
+    let total := t0 + r.1.length
+    if total ≥ max then { closed := s.closed ++ [d], cur := none, total := total, cache := r.2 }
+    else { closed := s.closed, cur := some d, total := total, cache := r.2 }
+
+def fileBatchKNoReturn (max : Nat) (s : FileSt) (b : List Bytes × FOracle) : FileSt :=
+  if b.1.isEmpty then s else flushKNoReturn max { s with cache := s.cache ++ b.1.flatten } b.2
+
+/-- `AsyncSink::onDisable()` after patches/C09-06: once the pipe has delivered everything, an
+unwritten tail left by an earlier write error is flushed once more -/
+def disableK (max : Nat) (s : FileSt) (o : FOracle) : FileSt :=
+  if s.cache.isEmpty then s else flushK max s o
+
+/-! ### the same, on lengths only (what the trace acceptor executes; `C09_flushK_len` proves it is
+the length image of `flushK`) -/
+
+structure FileLen where
+  closed : List Nat := []
+  cur : Option Nat := none
+  total : Nat := 0
+  cache : Nat := 0
+  deriving Repr, DecidableEq
+
+def FileSt.len (s : FileSt) : FileLen :=
+  { closed := s.closed.map List.length, cur := s.cur.map List.length, total := s.total, cache := s.cache.length }
+
+/-- (bytes accepted, bytes left) -/
+def writeLoopLen : List WAns → Nat → Nat × Nat
+  | [], n => (n, 0)
+  | .acc k :: os, n =>
+    if n = 0 then (0, 0)
+    else if k = 0 then (0, n)
+    else let r := writeLoopLen os (n - k); (min k n + r.1, r.2)
+  | .eintr :: os, n => if n = 0 then (0, 0) else writeLoopLen os n
+  | .err :: _, n => (0, n)
+
+def flushKLen (max : Nat) (s : FileLen) (o : FOracle) : FileLen :=
+  let start : Option (Nat × Nat) :=
+    match s.cur with
+    | some d => some (d, s.total)
+    | none => if o.dirOk && o.openOk then some (0, 0) else none
+  match start with
+  | none => s
+  | some (d0, t0) =>
+    let r := writeLoopLen o.writes s.cache
+    let d := d0 + r.1
+    let total := t0 + r.1
+    if r.2 != 0 then { closed := s.closed, cur := some d, total := total, cache := r.2 }
+    else if total ≥ max then { closed := s.closed ++ [d], cur := none, total := total, cache := 0 }
+    else { closed := s.closed, cur := some d, total := total, cache := 0 }
+
+/-! ### the stdout sinks under write faults on fd 1 -/
+
+/-- `AsyncStdoutSink::flush()` as found: ONE `write(1, …)`, its result ignored, the cache cleared:
+what reaches fd 1 is the accepted prefix, the rest of the batch is dropped -/
+def stdoutFlushAsFound (o : WAns) (cache : Bytes) : Bytes :=
+  match o with
+  | .acc k => cache.take k
+  | _ => []
+
+/-- after patches/C09-05: the same write loop as the file sink (EAGAIN on a non-blocking stdout
+waits for POLLOUT and retries: the oracle's `eintr`); a hard error (EPIPE, EBADF, EIO) drops the
+rest of the batch.  Returns what reached fd 1. -/
+def stdoutFlush (os : List WAns) (cache : Bytes) : Bytes := (writeLoop os cache).1
+
+def stdoutBatch (b : List Bytes × List WAns) : Bytes :=
+  if b.1.isEmpty then [] else stdoutFlush b.2 b.1.flatten
+
+/-- everything that reached fd 1 over a sequence of back-end batches -/
+def stdoutRun (bs : List (List Bytes × List WAns)) : Bytes := (bs.map stdoutBatch).flatten
+
+/-- an answer that does not end the loop with bytes left: a positive count or a retry -/
+def WAns.soft : WAns → Bool
+  | .acc k => k != 0
+  | .eintr => true
+  | .err => false
 
 /-- the whole back end of an AsyncFileSink over the chunks the pipe delivers -/
 def backEnd (H : Nat) (tl : Bytes → Nat) (rend : Bytes × Bytes → Bytes) (max : Nat)
